@@ -26,6 +26,12 @@ def run(rep, tier, seed):
         for line in open(gen_api):
             out.write(line)
             n_api += 1
+        # files with one long record (4095 vertices + the closing point = the first record longer than
+        # 32 KiB, 8189 + closing point = the longest XY record the format allows); the harness builds
+        # them, only counts are logged
+        for n in ([100, 4094, 4095, 8189] if tier == "quick" else [100, 2000, 4093, 4094, 4095, 4096, 6000, 8188, 8189]):
+            out.write(json.dumps(dict(k="biginfo", n=n, u=1)) + "\n")
+            n_api += 1
     hb = core.hbin("h_gds")
     obs = os.path.join(d, "obs_partial.ndjson")
     tmp = os.path.join(d, "tmp")
